@@ -68,6 +68,9 @@ FINDINGS = {
              "the primary-non-terminal finder used for `%on`/`%skip` takes ANY production with a single terminal on its right-hand side (the last "
              "one wins), also one alternative of a non-terminal with several productions: `%on T %enter INITIAL … T: 'a'; X: 'a' | 'b' 'c';` is "
              "rendered `%on X %enter INITIAL`, which check_transitions rejects (X is not a primary non-terminal)"),
+    "F25i": ("several-on-directives-for-one-token",
+             "parol accepts several `%on` directives for the same token in one scanner state (`%on T %push X %on T %enter X`); the transitions "
+             "come back in the order of the rendered directives (sorted by text: `%enter` before `%push`), not in the declared order"),
 }
 ORDER = sorted(FINDINGS)
 
@@ -245,8 +248,8 @@ def extra(ctx, state):
     stats["attributed_to_several_findings_together"] = sum(1 for v in explained.values() if len(v) > 1)
     stats["unexplained"] = len(unexplained)
     stats["generated_file"] = "lean/ParolModel/Generated/ParLiteralRes.lean (" + STATE.get("dump", "?") + ")"
-    stats["rule"] = ("documents: 20 hand-written boundary documents (one witness per listed finding), every *.par under examples/, "
-                     "crates/parol/data/valid, crates/parol/src/parser, crates/parol/tests/data, and 700 (quick) / 6000 (thorough) random documents: "
+    stats["rule"] = ("documents: 26 hand-written boundary documents (one witness per listed finding), every *.par under examples/, "
+                     "crates/parol/data/valid, crates/parol/src/parser, crates/parol/tests/data, and 2400 (quick) / 12000 (thorough) random documents (3 of 4 avoid the triggers of the listed findings): "
                      "1..3 scanner states, 1..5 primary terminals + 0..2 further non-terminals, literals of all three kinds from pools with escapes and "
                      "delimiter-like characters, lookahead, ^, @member, : Type, %user_type/%nt_type/%t_type, <S1, S2> state lists, %line_comment/"
                      "%block_comment (all quotings)/%auto_newline_off/%auto_ws_off/%allow_unmatched/%skip/%on … %enter|%push|%pop per state, %title/"
@@ -289,8 +292,11 @@ CLAIM = {
     "text": "Proved for ALL literal bodies, against the PAR lexer's token regexes regenerated from the repository on every run: the text the literal printers "
             "emit for a \"…\", '…' or /…/ literal with body t is read back by the documented tokenisation rule as exactly one token of that kind spanning the "
             "whole text whose trimmed body is t — for every t in the language of the body regex (\\\\.|[^d])* that is not shadowed by an earlier terminal "
-            "(literal_print_lex_roundtrip_string/_raw/_regex; for \"…\" and '…' the side condition is vacuous: litOk_legacy_raw; for /…/ it excludes exactly "
-            "the texts that are comments: regex_empty_is_line_comment, regex_stars_is_block_comment). The Lean printers are tied byte for byte to the real "
+            "(literal_print_lex_roundtrip_string/_raw/_regex; the condition litOk is exact: literal_print_lex_exact / _iff; for \"…\" and '…' its side "
+            "condition is vacuous: litOk_legacy_raw; for /…/ it excludes exactly the texts that are comments: regex_empty_is_line_comment, "
+            "regex_stars_is_block_comment). In context (literal_first_token): for every body that does not end in a backslash (and, for /…/, is neither "
+            "empty nor starts with `*`) and EVERY following text, the first token read is the literal's token ending at its own closing delimiter; a body "
+            "ending in a backslash is proved NOT self-delimiting (backslash_body_overruns, finding F25d). The Lean printers are tied byte for byte to the real "
             "Terminal::format / Symbol::format / LookaheadExpression::to_par. The document level is translation validation: every explored real "
             "render_par_string -> obtain_grammar_config_from_string round trip (untransformed and transformed) is judged by the Lean comparer configEq, "
             "proved sound and complete (configEq_sound, configEq_complete, oracle_sound, normAttrs_id) over an encoding of start symbol, declarations, "
